@@ -5,5 +5,5 @@ Require Import ExtrOcamlBasic.
 From Algo.C10 Require Import Model.
 From Algo.C12 Require Import Model.
 Extraction Language OCaml.
-Extraction "model.ml" verify nodup_prods analyse first_str_go follow_go cell_prods get_entry
+Extraction "model.ml" verify nodup_prods id_oracle analyse first_str_go follow_go cell_prods get_entry
   Parse_bt ParseAndBuildAST_bt yield.
